@@ -1094,6 +1094,19 @@ def extra_C17(eng, cases):
             k = v.lines[-1].split(" ")[2]
             v.lines[-1] = "o fin " + {"0": "3", "3": "0", "1": "4", "2": "1", "4": "2"}[k]
         variants.append((c, v))
+    # 1b. an audio track configured with codec `none` is no audio track: same results (error kinds included, also
+    #     after finish) and same file as the builder that never mentions audio, and the other way round
+    for c in mux:
+        has = [l for l in c.lines if l.startswith("b audio ") or l.startswith("b setaudio ")]
+        if has and all(l.split(" ")[2] == "none" for l in has):
+            v = c.clone(c.id + "_noaudio")
+            v.lines = [l for l in v.lines if l not in has]
+            variants.append((c, v))
+        elif not has:
+            v = c.clone(c.id + "_audionone")
+            k = max([i for i, l in enumerate(v.lines) if l.startswith("b ")] + [-1]) + 1
+            v.lines.insert(k, "b audio none bb80 2")
+            variants.append((c, v))
     ib = eng.run_impl([v for _, v in variants])
     eng.ev["evaluations"] += len(variants)
     for c, v in variants:
@@ -2168,3 +2181,4 @@ for _p in ("C04", "C05", "C17", "C03"):
 for _p in ("C10", "C11", "C12", "C16"):
     PROPS[_p]["fams"] = PROPS[_p]["fams"] + [("fam_frag_numeric", 24, 400)]
 PROPS["C15"]["fams"] = PROPS["C15"]["fams"] + [("fam_extreme_ts", 60, 1500)]
+PROPS["C12"]["fams"] = PROPS["C12"]["fams"] + [("fam_reject_matrix", 120, 2000)]
